@@ -26,13 +26,12 @@ Definition bin_rt (op : binop) (l r : ty) : oty :=
 
 Definition un_rt (op : unop) (t : ty) : oty :=
   match op with
-  | USum | UProduct => lift_opt (iter_element t)
   | UNot | UUnaryMinus => Ok t
   | UIndirection => lift_opt (mut_element_type_spec t)
   | UFunctionCall => lift_opt (fn_return_type t)
   | UCollect => match iter_element t with Some e => Ok (TArr e) | None => Ok (TArr TNever) end
   | UIter => match element_type t with Some e => Ok (TFun [] (TTup [TBool; e])) | None => Ok (TFun [] (TTup [TBool; TNever])) end
-  | UAll | UAny | UBitAnd | UBitOr | UReturn => Ok TNever
+  | USum | UProduct | UAll | UAny | UBitAnd | UBitOr | UReturn => Ok TNever
   end.
 
 (* HashMap collect: a later duplicate key overwrites *)
